@@ -262,7 +262,7 @@ def run_custom(tier: str) -> list[dict]:
     global _FAM
     del _UNREACHED[:]
     _FAM = capture_family(tier)
-    timeout_ms = 20000 if tier == "quick" else 120000
+    timeout_ms = 60000 if tier == "quick" else 180000
     ctx = mp.get_context("fork")
     with ctx.Pool(min(16, max(1, len(_FAM)))) as pool:
         parts = pool.map(_verify_idx, [(i, timeout_ms) for i in range(len(_FAM))], chunksize=1)
